@@ -317,7 +317,50 @@ fn boundary<F: Scalar>(_p: &Params) {
     symx::observe_usize(sets[0].iter().filter(|b| **b).count());
 }
 
+/// k-nearest under `LpDist(p)` with a whole-number order over integer lattice points: the true neighbours are known
+/// from the integer keys sum_j |a_j - b_j|^p (keys that differ differ by at least one, so no rounding of `powf` can
+/// reorder them).  Concrete f64 runs of the three index kinds; the solver enumerates the configuration.
+fn lp_lattice<F: Scalar>(_p: &Params) {
+    let tables: Vec<Vec<[i64; 2]>> = vec![
+        vec![[1, 1], [-1, 1], [1, -1], [-1, -1], [3, 0], [0, -2]],
+        vec![[2, -1], [1, 2], [-2, 1], [-1, -2], [2, 1], [0, 0], [1, 0], [3, -3]],
+        vec![[0, 1], [1, 0], [0, -1], [-1, 0], [2, -2], [-2, 2], [1, 1], [-3, 1], [3, -1], [-2, -3]],
+    ];
+    let pts_i = &tables[choice("table", tables.len())];
+    let queries: [[i64; 2]; 3] = [[0, 0], [1, -1], [-2, 2]];
+    let qi = queries[choice("query", queries.len())];
+    let order = 1 + choice("order", 3) as u32;
+    let k = [1usize, 2, 3, 5, 20][choice("k", 5)];
+    let leaf = 1 + choice("leaf", 3);
+    let n = pts_i.len();
+    let pts = Array2::from_shape_fn((n, 2), |(i, j)| pts_i[i][j] as f64);
+    let q = Array1::from(vec![qi[0] as f64, qi[1] as f64]);
+    let key = |i: usize| -> u64 { ((pts_i[i][0] - qi[0]).unsigned_abs()).pow(order) + ((pts_i[i][1] - qi[1]).unsigned_abs()).pow(order) };
+    let mut want: Vec<u64> = (0..n).map(key).collect();
+    want.sort();
+    want.truncate(k.min(n));
+    for kind in 0..3 {
+        let nn = index_kind(kind);
+        let idx = nn.from_batch_with_leaf_size(&pts, leaf, LpDist(order as f64)).expect("index build");
+        let res: Vec<usize> = idx.k_nearest(q.view(), k).expect("k_nearest").into_iter().map(|(_, i)| i).collect();
+        let ok_rows = res.iter().all(|i| *i < n) && (0..res.len()).all(|a| (0..a).all(|b| res[a] != res[b]));
+        check_bool("lp.min(k, n) distinct stored rows", res.len() == k.min(n) && ok_rows);
+        if res.len() == k.min(n) && ok_rows {
+            let got: Vec<u64> = res.iter().map(|&i| key(i)).collect();
+            check_bool("lp.neighbours are the k nearest under the Minkowski distance of that order, in ascending distance", got == want);
+        }
+    }
+    symx::observe_usize(want.len());
+}
+
 pub fn register(v: &mut Vec<HarnessDef>) {
+    v.push(HarnessDef {
+        name: "c07.lp_lattice", property: "C07",
+        doc: "k_nearest under LpDist(1), LpDist(2), LpDist(3) over integer lattice points for the three index kinds against the ranking by the integer keys sum |a_j - b_j|^p",
+        sym: lp_lattice::<SymF>, native: None,
+        functions: &["linfa_nn::distance::LpDist::distance (powf)", "linfa_nn::{BallTreeIndex, KdTreeIndex, LinearSearchIndex}::k_nearest (f64)"],
+        assumptions: &["three tables of 6-10 lattice points, three queries, orders 1-3, k in {1,2,3,5,20}, leaf sizes 1-3", "concrete f64 run per configuration (powf is an uninterpreted function for the symbolic scalar); the solver only enumerates configurations"],
+    });
     v.push(HarnessDef {
         name: "c07.boundary", property: "C07",
         doc: "L2 range queries over integer lattice points with radii sqrt(k) and its two neighbouring doubles: every index kind returns exactly the points inside the radius in exact arithmetic; kinds agree",
